@@ -11,7 +11,7 @@ frame.  Initiator stack and target stack alternate strictly (env.air).
 """
 import nfc.clf
 import nfc.dep
-from env.air import Air, IniClf, TgtClf, FAULT_NAMES
+from env.air import Air, IniClf, TgtClf, FAULT_NAMES, FrameStorm
 
 PROPERTY = "C04"
 
@@ -68,7 +68,7 @@ def classify(frames):
     return 'single', last
 
 
-def check_frames(sx, air, lri, lrt):
+def check_frames(sx, air, lri, lrt, tag=""):
     """every frame on the air: start byte iff 106A, length byte, and the
     transport data field within what the receiver announced"""
     for f in air.frames:
@@ -79,7 +79,7 @@ def check_frames(sx, air, lri, lrt):
         if f.pdu == 'ATR':
             continue            # sent before the limits are known (<= 64)
         limit = LR[lrt] if f.sender == 'I' else LR[lri]
-        sx.check(f.td_len <= limit, "frame-exceeds-lr:%s:%s" % (who, name))
+        sx.check(f.td_len <= limit, "frame-exceeds-lr:%s:%s%s" % (who, name, tag))
 
 
 def conversation(sx, tech, brs, lri, lrt, did, nad, shapes, faults,
@@ -140,6 +140,8 @@ def conversation(sx, tech, brs, lri, lrt, did, nad, shapes, faults,
             except nfc.clf.CommunicationError as e:
                 I['end'] = type(e).__name__
                 break
+            except FrameStorm:
+                sx.check(False, "endless-exchange:initiator")
             finally:
                 air.step = None
         air.faults_on = False
@@ -148,21 +150,23 @@ def conversation(sx, tech, brs, lri, lrt, did, nad, shapes, faults,
     finally:
         air.abort()
 
-    assert air.late == 0, "a target time-out became binding"
+    sx.check(air.late == 0, "conversation-outlasts-target-timeout")
     if T['gb'] is None:
         sx.check(False, "activation-failed:target")
     sx.check(sx.all([same_bytes(sx, T['gb'], b"Ffm\x01\x01\x11"),
                      same_bytes(sx, I['gb'], b"Ffm\x01\x01\x11")]),
              "activation:general-bytes-not-exchanged")
     cls, last = classify(air.frames)
-    why = describe(last)
+    why = describe(last) + (":did" if did is not None else "") + \
+        (":nad" if nad is not None else "")
     sx.reach("script:" + cls)
     for f in air.frames:
         if f.fault:
             sx.reach("fault:%s:%s" % (describe(f).split(":")[0], FAULT_NAMES[f.fault]))
 
     # ---- the air interface
-    check_frames(sx, air, lri, lrt)
+    check_frames(sx, air, lri, lrt, (":did" if did is not None else "") +
+                 (":nad" if nad is not None else ""))
     sx.check(air.unsolicited == 0, "target-transmits-without-request:" + cls)
     want = ('106A', '212F', '424F')[max(brs, ('106A', '212F', '424F').index(tech))]
     sx.check(ini.target.brty == want and tgt.target.brty == want,
